@@ -28,7 +28,7 @@ TRAIT_QUERY_METHODS = [
     ("stargate::Stargate", "query_grpc"), ("app::CosmosRouter", "query"), ("wasm::Wasm", "contract_data"),
     ("wasm::Wasm", "dump_wasm_raw"), ("wasm::Wasm", "contract_storage"),
 ]
-INHERENT_QUERY_FNS = ["wasm::WasmKeeper::query_smart", "wasm::WasmKeeper::query_raw", "wasm::WasmKeeper::with_storage_readonly",
+INHERENT_QUERY_FNS = ["wasm::WasmKeeper::query_smart", "wasm::WasmKeeper::query_raw",
                       "app::Router::querier", "app::RouterQuerier::new",
                       "bank::BankKeeper::get_balance"]
 WRITERS = {"set", "remove"}
@@ -77,7 +77,7 @@ def r8(ctx, cfg):
     """"a query issued through App observes exactly the committed state" of the contract that was asked: a smart query runs the queried
     contract's code on the queried contract's storage window *with the queried contract's address in Env* (what its handler
     reads about itself - its balance, its info - is looked up under that address): the C05.R4 obligations on with_storage /
-    with_storage_readonly under C10's id"""
+    query_smart under C10's id"""
     from rules import C05
     C05.r4(ctx, cfg, R="C10.R8")
 
@@ -317,7 +317,7 @@ def r3(ctx, cfg):
             ok = qo[0] == "call" and qo[1] == "cosmwasm_std::QuerierWrapper::new" and q.router_querier(qo[2][0]) is not None
         ctx.ob(R, key, "DepsMut.querier-is-that-querier", ok, "DepsMut.querier is not the RouterQuerier built here", fn=f,
                sample="QuerierWrapper::new(&querier)")
-    key = "wasm::WasmKeeper::with_storage_readonly"
+    key = "wasm::WasmKeeper::query_smart"          # (with_storage_readonly is always spliced into it)
     f = ctx.need_fn(R, key)
     if f is not None:
         aggs = [(b, i, st) for b, i, st in f.stmts() if st["k"] == "assign" and st["rv"].get("k") == "aggregate" and st["rv"].get("adt") == "cosmwasm_std::Deps"]
